@@ -3,7 +3,7 @@ from speaker_common import run_speaker
 
 
 def main(run):
-    run_speaker(run, ["C01_ExportExact", "C01_AddPathExact", "C01_StableIds"])
+    run_speaker(run, ["C01_ExportExact", "C01_AddPathExact", "C01_StableIds"], quota=True)
 
 
 RULE = ("schedules = TLC -simulate walks of SpeakerGen.tla (Up/UpHold/Release/Down/Ann/Wd/ApiAdd/ApiDel/"
